@@ -8,10 +8,12 @@ use crate::refmodel::{self, RunFail};
 use crate::report::{self, Report, Violation};
 use serde_json::json;
 
-const BASES: [&str; 10] = [
+const BASES: [&str; 12] = [
     "u32", "String", "Vec<u32>", "User", "T", "DateTime(mapped)", "Vec<u8>(mapped to bytes)",
     // an Option as a direct parameter of a container is part of the base type, not of the member's optionality
     "Vec<Option<u32>>", "HashMap<String, Option<User>>", "Pair<Option<u32>>",
+    // a user type whose definition carries serde(rename): the reference is rewritten in a pass of its own
+    "Member(renamed)", "Vec<Member(renamed)>",
 ];
 const WRAPPERS: [&str; 6] = ["T", "Option<T>", "Option<Option<T>>", "Box<Option<T>>", "Option<Box<T>>", "Arc<Option<Option<T>>>"];
 const DEFAULTS: [&str; 7] = ["none", "bare", "merged-last", "merged-first", "path", "separate-after-other-serde-attribute", "separate-before-other-serde-attribute"];
@@ -23,6 +25,8 @@ fn base_ty(b: &str) -> Ty {
         "String" => Ty::Prim("String"),
         "Vec<u32>" => Ty::Vec(Box::new(Ty::Prim("u32"))),
         "User" => Ty::user("User"),
+        "Member(renamed)" => Ty::user("Member"),
+        "Vec<Member(renamed)>" => Ty::Vec(Box::new(Ty::user("Member"))),
         "DateTime(mapped)" => Ty::user("DateTime"),
         "Vec<u8>(mapped to bytes)" => Ty::Vec(Box::new(Ty::Prim("u8"))),
         "Vec<Option<u32>>" => Ty::Vec(Box::new(Ty::Option(Box::new(Ty::Prim("u32"))))),
@@ -112,6 +116,11 @@ pub fn program(c: &Case) -> File {
     let ctl = Field::new("ctl", bt.clone());
     let generic = c.base == "T";
     let mut items = vec![Item::strukt("User", vec![Field::new("u", Ty::Prim("u32"))])];
+    if c.base.contains("Member") {
+        let mut m = Item::strukt("Member", vec![Field::new("m", Ty::Prim("u32"))]);
+        m.rename = Some("MemberV2".into());
+        items.push(m);
+    }
     if c.base.starts_with("Pair<") {
         let mut p = Item::strukt("Pair", vec![Field::new("a", Ty::Param("A".into()))]);
         p.generics = vec!["A".into()];
@@ -164,7 +173,7 @@ pub fn check_case(c: &Case, choices: &[u32], acc: &mut Acc) {
     // number of optional wrappers the type text must carry in opt-carrying backends
     let type_levels = levels + if bare_default && levels == 0 { 1 } else { 0 };
     // Go with `no_pointer_slice`: the innermost Option around a Vec adds no pointer (documented: a nil slice is the absent value)
-    let go_slice_exempt = c.lang == Lang::Go && cfg.go_no_pointer_slice && levels >= 1 && matches!(c.base, "Vec<u32>" | "Vec<u8>(mapped to bytes)" | "Vec<Option<u32>>");
+    let go_slice_exempt = c.lang == Lang::Go && cfg.go_no_pointer_slice && levels >= 1 && matches!(c.base, "Vec<u32>" | "Vec<u8>(mapped to bytes)" | "Vec<Option<u32>>" | "Vec<Member(renamed)>");
     let type_levels = if go_slice_exempt { type_levels - 1 } else { type_levels };
     acc.runs += 1;
     let res = refmodel::run_single(&file, c.lang, &cfg);
